@@ -652,6 +652,15 @@ func (env *Environment) handleHooks(workflow workflow.Role, trigger string, weig
 	for k := range callsMapForAwait {
 		allWeightsSet[k] = callable.Hooks{}
 	}
+	// A call started at this trigger may be awaited at another weight of this same trigger; it is
+	// filed as pending only once it is started below, so that weight has to be put on the list now.
+	for _, hooks := range hooksMapForTrigger {
+		for _, call := range hooks.FilterCalls() {
+			if awaitName, awaitWeight := callable.ParseTriggerExpression(call.GetTraits().Await); awaitName == trigger {
+				allWeightsSet[awaitWeight] = callable.Hooks{}
+			}
+		}
+	}
 	allWeights := allWeightsSet.GetWeights()
 
 	filteredWeights := make([]callable.HookWeight, 0)
